@@ -1,5 +1,6 @@
 mod dft;
 mod hal;
+mod tmpbytes;
 mod util;
 
 use serde_json::Value;
@@ -58,6 +59,17 @@ fn main() {
             }
             out.flush().unwrap();
             println!("hal: {} descriptors {} events", cases.len(), nev);
+        }
+        // tmpbytes <n> <out.ndjson>
+        "tmpbytes" => {
+            let n: usize = args[2].parse().unwrap();
+            let rows = tmpbytes::dump(n);
+            let mut out = BufWriter::new(std::fs::File::create(&args[3]).unwrap());
+            for r in rows.iter() {
+                writeln!(out, "{}", serde_json::to_string(r).unwrap()).unwrap();
+            }
+            out.flush().unwrap();
+            println!("tmpbytes: {} rows", rows.len());
         }
         other => {
             eprintln!("unknown command {other}");
